@@ -215,6 +215,10 @@ class C03(SimSpec):
                     for j in scen["jobs"]:
                         j["group"] = scen["groups"][0]["name"]
                     scen["user"] = {}
+                if v == 1:
+                    # race variant: user rounds overlapping the last batches + long delays at critical points
+                    scen["user"] = {"try_submit": vr.choice([3, 4, 6]), "show_status": vr.choice([0, 1]), "p": vr.choice([0.02, 0.05])}
+                    scen["policy"]["park_p"] = vr.choice([0.3, 0.5])
                 scen["dag_id"] = i
                 scenario.normalize(scen)
                 out.append(sim_task(scen, sub_seed(s, v, "sched"), k))
@@ -342,6 +346,13 @@ class C05(SimSpec):
             for g in scen["groups"]:
                 g["batch"] = rng.randint(1, 2)
         scen["user"] = {"try_submit": rng.choice([0, 0, 1]), "show_status": rng.choice([0, 1])}
+        if i % 4 == 1:
+            # race slice: several user rounds overlapping the last batches, long delays at the points between a round's
+            # result scan, its scheduler poll and its status update
+            scen["user"] = {"try_submit": rng.choice([3, 4, 6]), "show_status": rng.choice([0, 1]), "p": rng.choice([0.02, 0.05])}
+            scen["policy"]["park_p"] = rng.choice([0.3, 0.5])
+            scen["policy"]["kind"] = rng.choice(["walk", "sticky"])
+            scen["policy"]["finish_w"] = rng.choice([0.2, 1.0])
         return scen
 
     def nontrivial(self, t, r):
@@ -945,7 +956,8 @@ class C15(SimSpec):
     task_timeout = 200
     rule = (
         "pipelines of 1-4 stages (1-4 jobs each, dependencies, failures, flags) created through PipelineManager.create_config_from_files and run with `jade pipeline submit`, "
-        "HPC and local mode, random schedules incl. user try-submit-jobs / show-status on the current stage; oracle on boundary events: stage k+1's config.json is first written only "
+        "HPC and local mode, random schedules incl. user try-submit-jobs / show-status on the current stage; a slice with a killed node (missing jobs -> non-zero stage return code) and a slice in "
+        "which, after the pipeline completed, the user runs resubmit-jobs on one stage (that stage completes again: later stages and pipeline.json must be left alone); oracle on boundary events: stage k+1's config.json is first written only "
         "after stage k was observed complete (lock-free observation and on-disk flag), each stage configured once, one submit-next-stage per completion, pipeline.json stage_num / "
         "return codes / is_complete match what happened; non-trivial = >= 2 stages submitted and completed; distinct adds the number of stages"
     )
@@ -968,6 +980,12 @@ class C15(SimSpec):
         if i % 5 == 4:
             scen["mode"] = "local"
             scen["user"] = {}
+        elif i % 5 == 2:
+            # a killed node leaves missing jobs, so that a stage passes a non-zero return code on
+            scen["faults"] = {"node_kill": 1, "node_kill_w": rng.choice([0.02, 0.05])}
+        elif i % 5 in (1, 3):
+            # history extension: once the pipeline is complete the user resubmits the failed jobs of one stage
+            scen["resubmit_stage"] = True
         return scen
 
     def tasks(self, tier, seed):
@@ -995,6 +1013,9 @@ class C15(SimSpec):
         c["submit_next_stage_commands_checked"] = total(ok, "next_stage_cmds")
         c["pipelines_completed"] = sum(1 for r in ok if r.get("pipeline_complete"))
         c["stages_per_pipeline"] = hist(len(t["args"]["scen"]["stages"]) for t in tasks)
+        c["pipelines_with_a_stage_resubmitted_after_completion"] = sum(1 for r in ok if r.get("stage_resubmitted"))
+        c["pipelines_with_a_killed_node"] = sum(1 for r in ok if (r.get("killed_nodes") or 0) >= 1)
+        c["nonzero_stage_return_codes_seen"] = total(ok, "nonzero_stage_rcs")
         c["local_mode_runs"] = sum(1 for t in tasks if t["args"]["scen"].get("mode") == "local")
         return c
 
